@@ -108,6 +108,11 @@ def generate(tier):
                                   n))
                     cases.append(("overlap_precursor", variant, gsv, singles,
                                   c, c, n))
+        if variant in ("ip", "ea") or tier == "thorough":
+            # third order with first-order singles: the first order at which
+            # the higher norm-factor terms of the lower-class projector matter
+            for c1, c2 in ((classes[0], classes[1]), (classes[1], classes[0])):
+                cases.append(("overlap_isr", variant, "mp", True, c1, c2, 3))
         if tier == "thorough" and len(VARIANT_CLASSES[variant]) > 2:
             c3 = VARIANT_CLASSES[variant][2]
             for c in (classes[0], c3):
@@ -115,6 +120,8 @@ def generate(tier):
                 cases.append(("overlap_isr", variant, "mp", False, c, c3, 1))
     for n in range(0, 9 if tier == "quick" else 13):
         for mo in (1, 2, 3):
+            if mo == 1 and n > 8:
+                continue    # the library enumerates (n)^(n) tuples there
             cases.append(("s_taylor", n, mo))
     for variant in b["variants"]:
         cases.append(("spaces", variant))
